@@ -83,6 +83,12 @@ def main():
             rep = checks_jobdir.run(a.prop, a.tier, a.replay, rep=rep, finish=False)
             if isinstance(rep, int):
                 return rep
+        if a.prop == "C05" and not a.replay:
+            # ... nor by a later experiment of whatever mode, on real workspaces (XpmWorkspace)
+            from . import ws_commands
+            from .common import seed as _seed
+
+            ws_commands.behaviours(rep, "C05", a.tier, _seed())
         if a.prop == "C11" and not a.replay:
             # running the same experiment again in another process must name the same job directories
             from . import checks_config
